@@ -56,7 +56,8 @@ def specs_for(t, rnd):
                 a, b = pairs.near_background(rnd)
             bgk = rnd.choice(["tuple", "hex6", "rgbfn"])
             out.append(dict(text=spell_variant(a, kind, k, rnd), bg=pairs.spell(b, bgk, rnd), large=bool(rnd.getrandbits(1)),
-                            spell=kind, runs=[(mode, bool(j & 1)), ((mode + 1) % 3, not (j & 1))], ref=True, chain=False))
+                            spell=kind, runs=[(mode, bool(j & 1)), ((mode + 1) % 3, not (j & 1))] + ([(mode, bool(j & 1), True)] if j % 3 == 0 else []),
+                            ref=True, chain=False))
             k += 1
     return out
 
